@@ -164,10 +164,12 @@ func c08IPListener(r *simcore.Run, tp *simcore.Tape) map[string]any {
 			burst := 1 + tp.Intn(6, "burst")
 			for i := 0; i < burst; i++ {
 				var pl []byte
-				switch tp.Intn(7, "kind") {
+				switch tp.Intn(8, "kind") {
 				case 0:
 					pl = make([]byte, tp.Intn(2049, "len"))
 					rand.Read(pl)
+				case 7: // correctly sealed, hostile extension fields inside the encrypted part
+					pl = c08SealedHostileInside(r, tp, hdr(), prov)
 				case 6: // correctly sealed under a valid cookie, with a unique identifier of unusual length
 					pl = c08SealedOddUID(r, tp, hdr(), prov)
 				case 1:
@@ -259,6 +261,34 @@ func c08SealedOddUID(r *simcore.Run, tp *simcore.Tape, hdr []byte, prov *ntske.P
 }
 
 var c08UIDLen = 32
+
+// c08EncFields: what the authenticator of the next c08RawNTSRequest encrypts (extension
+// fields that only the holder of the session keys can place there)
+var c08EncFields []byte
+
+// c08SealedHostileInside: a correctly sealed request whose encrypted part holds extension
+// fields with hostile lengths (zero, shorter than a header, unaligned, beyond the end).
+func c08SealedHostileInside(r *simcore.Run, tp *simcore.Tape, hdr []byte, prov *ntske.Provider) []byte {
+	r.Probe("sealed-request-hostile-encrypted-fields")
+	c2s, s2c := make([]byte, 32), make([]byte, 32)
+	rand.Read(c2s)
+	rand.Read(s2c)
+	key := prov.Current()
+	sc := ntske.ServerCookie{Algo: ntske.AES_SIV_CMAC_256, C2S: c2s, S2C: s2c}
+	ec, _ := sc.EncryptWithNonce(key.Value, key.ID)
+	var inner []byte
+	for i := 0; i < 1+tp.Intn(3, "ninner"); i++ {
+		body := make([]byte, []int{0, 4, 24, 28, 60, 124}[tp.Intn(6, "innerbody")])
+		rand.Read(body)
+		l := []int{0, 1, 2, 3, 4, 5, 6, 8, 4 + len(body), 4 + len(body) + 4, 0xffff, 0x8000}[tp.Intn(12, "innerlen")]
+		typ := []uint16{0x0204, 0x0304, 0x0104, 0x0404, 0x4242}[tp.Intn(5, "innertyp")]
+		inner = append(inner, byte(typ>>8), byte(typ), byte(l>>8), byte(l))
+		inner = append(inner, body...)
+	}
+	c08EncFields = inner
+	defer func() { c08EncFields = nil }()
+	return c08RawNTSRequest(hdr, ec.Encode(), tp.Intn(8, "nph"), c2s)
+}
 
 // ---- SCION listener, forwarder, SCMP -----------------------------------------------------
 
@@ -352,6 +382,8 @@ func c08SCIONListener(r *simcore.Run, tp *simcore.Tape) map[string]any {
 			return c08Mutate(tp, c09ValidNTS(plainReq(), prov))
 		case 2:
 			return c08SealedOddUID(r, tp, plainReq(), prov)
+		case 3:
+			return c08SealedHostileInside(r, tp, plainReq(), prov)
 		}
 		return plainReq()
 	}
@@ -1098,7 +1130,7 @@ func c08RawNTSRequest(hdr []byte, cookie []byte, nph int, c2s []byte) []byte {
 	}
 	nonce := make([]byte, 16)
 	rand.Read(nonce)
-	ct := sealSIV(c2s, nonce, nil, b)
+	ct := sealSIV(c2s, nonce, c08EncFields, b)
 	body := append([]byte{0, 16, byte(len(ct) >> 8), byte(len(ct))}, nonce...)
 	body = append(body, ct...)
 	put(0x0404, body)
